@@ -4,7 +4,7 @@ from props.c04 import (run_impl, emit, finding_tag, nontrivial, distribution, sh
                        COQ_IMPORTS, SHARD, JOBS, WORKER_TIMEOUT, TRUSTED)
 
 RULE = ("cases = the C04 games with an injected clock at datascope.importance.shapley.time that advances by 1 per utility "
-        "evaluation, budgets chosen so that the time expires after EVERY possible iteration incl. the first (and never), "
+        "evaluation (a quarter of the timeout cases add a stall right after the start, so that the budget is already exhausted at the first reading after start_time), budgets chosen so that the time expires after EVERY possible iteration incl. the first (and never), "
         "and truncation settings steps in {0,1,2,3} x tolerances {0, .1, .5, 1, 2.5} with mean scores placed so that "
         "runs enter and leave the band; compared inside Coq: scores (None when NaN), call history, number of "
         "permutations drawn, evaluations per permutation -- against the loop model, and against the stated rules "
@@ -12,8 +12,8 @@ RULE = ("cases = the C04 games with an injected clock at datascope.importance.sh
         "units get zero; steps = 0 never cuts); non-trivial = a cut or a timeout actually happened; distinct = JSON")
 EXHAUSTIVE = {"quick": False, "thorough": False}
 COQ_IMPORTS = "From DS Require Import Spec.Dnf Model.MonteCarlo Check.C03 Check.C04."
-ASSUMPTIONS = ["the clock is read through the module attribute `time` (scripted as a function of the number of utility "
-               "evaluations made so far, so extra reads do not shift it)"]
+ASSUMPTIONS = ["the clock is read through the module attribute `time` (first reading 0 = start_time; later readings a function "
+               "of the number of utility evaluations made so far plus an optional stall, so extra reads do not shift it)"]
 
 
 def gen(rng, tier):
@@ -22,16 +22,20 @@ def gen(rng, tier):
     for k in range(N):
         kind = k % 3
         c = c04.rand_mc_case(rng, truncation=kind in (0, 2), timeout=kind in (1, 2))
-        c["iters"] = rng.randint(1, 6)
+        c["iters"] = rng.randint(1, 6) if kind == 0 else rng.randint(2, 6)
         if kind in (0, 2):
             # put the mean where the table lives so that the band is really entered and left
             vals = [v for _, v in c["table"] if not isinstance(v, str)]
             v = rng.choice(vals)
             c["mean"] = [v[0], v[1]] if v[0] != 0 else [1, 2]
-            c["tolr"] = rng.choice([[0, 1], [1, 10], [1, 2], [1, 1], [5, 2]])
+            c["tolr"] = rng.choice([[0, 1], [1, 10], [1, 2], [1, 1], [1, 1], [5, 2], [5, 2]])
         if kind in (1, 2):
             # budgets: expire after every possible iteration, incl. the first
-            c["timeout"] = rng.choice([1, c["n"] - 1 if c["n"] > 1 else 1, c["n"], 2 * c["n"], 3 * c["n"] + 1, 10 ** 6])
+            c["timeout"] = rng.choice([1, c["n"] - 1 if c["n"] > 1 else 1, c["n"], c["n"], 2 * c["n"], 2 * c["n"], 3 * c["n"] + 1,
+                                       3 * c["n"] + 1, 10 ** 6])
+            # a stall right after the start: the budget is already exhausted at the first reading after start_time
+            if rng.random() < 0.25:
+                c["jump"] = rng.choice([c["timeout"] + 1, c["timeout"], 1])
         cases.append(c)
     return cases
 
